@@ -427,6 +427,7 @@ func runC11(args []string) error {
 		return err
 	}
 	runC11ManyTables(sum)
+	runC11Cancelled(sum)
 	if err := runC11Reset(sum); err != nil {
 		return err
 	}
